@@ -195,12 +195,43 @@ fn replay_pairs<P: PType>(rp: &Value) -> Option<Vec<crate::viol::Viol>> {
     }
 }
 
+fn pstate_of<S: Side<P>, P: PType>(uni: &Universe, hist: &[Op]) -> Option<PState<S>> {
+    let st = rebuild::<S>(uni, hist, KeyOpts { reps: false, layout: false, no_free: true })?;
+    let roots: Vec<GK> = uni.queries.iter().copied().filter(|q| crate::ops::top_node_under(&st.walk, *q).is_some()).collect();
+    Some(PState { sut: st.map, model: st.model, hist: hist.to_vec(), roots })
+}
+
+fn replay_eq_typed<P: PType, S: crate::pairs2::EqSide<P>>(rp: &Value) -> Option<Vec<crate::viol::Viol>> {
+    let uni = uni_of::<P>(&rp["spec"]);
+    let a = pstate_of::<S, P>(&uni, &ops_from_json(&rp["history"]))?;
+    let b = pstate_of::<S, P>(&uni, &ops_from_json(&rp["extra"]["b_history"]))?;
+    let er = crate::pairs2::run_eq::<P, S>(&[a, b], &uni, 1);
+    Some(er.found.into_iter().map(|f| f.0).collect())
+}
+
+fn replay_eq<P: PType>(rp: &Value) -> Option<Vec<crate::viol::Viol>> {
+    if rp["extra"]["kind"].as_str() == Some("set") {
+        replay_eq_typed::<P, PrefixSet<P>>(rp)
+    } else {
+        replay_eq_typed::<P, PrefixMap<P, u32>>(rp)
+    }
+}
+
+fn replay_self<P: PType>(rp: &Value) -> Option<Vec<crate::viol::Viol>> {
+    let uni = uni_of::<P>(&rp["spec"]);
+    let a = pstate_of::<PrefixMap<P, u32>, P>(&uni, &ops_from_json(&rp["history"]))?;
+    let sr = crate::pairs2::run_self::<P>(&[a], &uni, 1);
+    Some(sr.found.into_iter().map(|f| f.viol).collect())
+}
+
 pub fn replay_other(engine: &str, rp: &Value, path: &str) -> i32 {
     let ptype = rp["spec"]["ptype"].as_str().unwrap_or("u8").to_string();
     let run = || -> Option<Vec<crate::viol::Viol>> {
         match engine {
             "pairs" => dispatch_ptype!(ptype.as_str(), replay_pairs(rp)),
             "algebra" => dispatch_ptype!(ptype.as_str(), replay_algebra(rp)),
+            "eqpairs" => dispatch_ptype!(ptype.as_str(), replay_eq(rp)),
+            "selfpairs" => dispatch_ptype!(ptype.as_str(), replay_self(rp)),
             _ => None,
         }
     };
